@@ -387,7 +387,8 @@ func c15R3(p *core.Prog, r *core.Report) {
 		detail := "stores only Tag, Digest and Reference = CommonName()"
 		var refStore *ssa.Store
 		var others []*ssa.Store
-		for _, fs := range fieldStores([]*ssa.Function{fn}, func(n *types.Named, f string) bool { return n == rt }) {
+		// the three methods may share an unexported helper that works on its own copy of the reference
+		for _, fs := range fieldStores(sortedFuncs(core.Helpers(fn, 1)), func(n *types.Named, f string) bool { return n == rt }) {
 			_, f := core.FieldAddrInfo(fs.Addr)
 			switch f {
 			case "Tag", "Digest":
@@ -408,7 +409,7 @@ func c15R3(p *core.Prog, r *core.Report) {
 				if cal := core.Callee(oc); cal != nil && core.IsModMethod(cal, "types/ref", "Ref", "CommonName") {
 					fromCN = true
 					for _, o := range others {
-						if !core.DominatesInstr(o, oc) {
+						if o.Parent() == oc.Parent() && !core.DominatesInstr(o, oc) {
 							ok = false
 							detail = "Reference is serialised before Tag/Digest were updated"
 						}
@@ -541,11 +542,18 @@ func c15R5(p *core.Prog, r *core.Report, pats map[string]string) {
 		fname := p.FuncName(fn)
 		ok := false
 		detail := "the scheme is not taken from a submatch of a compiled pattern"
-		for _, fs := range fieldStores([]*ssa.Function{fn}, func(n *types.Named, f string) bool { return n.Obj().Name() == "Ref" && f == "Scheme" }) {
+		helpers := core.Helpers(fn, 1)
+		for _, fs := range fieldStores(sortedFuncs(helpers), func(n *types.Named, f string) bool { return n.Obj().Name() == "Ref" && f == "Scheme" }) {
 			if _, isK := core.ConstString(fs.Store.Val); isK {
 				continue
 			}
-			for _, oc := range originCalls(fs.Store.Val) {
+			var ocs []*ssa.Call
+			for _, o := range core.Origins(fs.Store.Val, core.SliceOpts{Helpers: helpers}) {
+				if o.Kind == core.OCall {
+					ocs = append(ocs, o.Call)
+				}
+			}
+			for _, oc := range ocs {
 				cal := core.Callee(oc)
 				if cal != nil && core.IsMethod(cal, "regexp", "Regexp", "FindStringSubmatch") {
 					if u, isU := core.CallArg(oc, 0).(*ssa.UnOp); isU {
@@ -571,19 +579,47 @@ func c15R5(p *core.Prog, r *core.Report, pats map[string]string) {
 	if fn == nil {
 		return
 	}
+	// the normalisation may live in an unexported helper and may work on locals instead of fields: the
+	// library/ prefix is a concatenation whose leftmost operand is the constant, the alias rewrite is
+	// the constant docker.io arriving in a registry value (a field store, or a phi edge of a local)
 	var prefix, alias []ssa.Instruction
-	for _, fs := range fieldStores([]*ssa.Function{fn}, func(n *types.Named, f string) bool { return n.Obj().Name() == "Ref" }) {
-		_, f := core.FieldAddrInfo(fs.Addr)
-		switch f {
-		case "Repository":
-			if bo, ok := fs.Store.Val.(*ssa.BinOp); ok && bo.Op == token.ADD {
-				if s, isK := core.ConstString(leftmost(bo)); isK && strings.HasPrefix(s, "library") {
-					prefix = append(prefix, fs.Store)
+	for _, f := range sortedFuncs(core.Helpers(fn, 1)) {
+		for _, blk := range f.Blocks {
+			for _, in := range blk.Instrs {
+				switch x := in.(type) {
+				case *ssa.BinOp:
+					if x.Op == token.ADD && isStringType(x.Type()) {
+						if s, isK := core.ConstString(leftmost(x)); isK && strings.HasPrefix(s, "library") {
+							// only the outermost concatenation
+							outer := true
+							for _, ref := range *x.Referrers() {
+								if bo, ok := ref.(*ssa.BinOp); ok && bo.Op == token.ADD && bo.X == ssa.Value(x) {
+									outer = false
+								}
+							}
+							if outer {
+								prefix = append(prefix, x)
+							}
+						}
+					}
+				case *ssa.Store:
+					if fa, ok := x.Addr.(*ssa.FieldAddr); ok {
+						if n, fld := core.FieldAddrInfo(fa); n != nil && n.Obj().Name() == "Ref" && fld == "Registry" {
+							if s, isK := core.ConstString(x.Val); isK && s == "docker.io" {
+								alias = append(alias, x)
+							}
+						}
+					}
+				case *ssa.Phi:
+					if isStringType(x.Type()) {
+						for _, e := range x.Edges {
+							if s, isK := core.ConstString(e); isK && s == "docker.io" {
+								alias = append(alias, x)
+								break
+							}
+						}
+					}
 				}
-			}
-		case "Registry":
-			if s, isK := core.ConstString(fs.Store.Val); isK && s == "docker.io" {
-				alias = append(alias, fs.Store)
 			}
 		}
 	}
@@ -593,7 +629,7 @@ func c15R5(p *core.Prog, r *core.Report, pats map[string]string) {
 	}
 	ok := true
 	for _, pr := range prefix {
-		after := core.Reach{}.FromInstr(pr)
+		after := core.DeepReach{Scope: core.Helpers(fn, 1)}.FromInstr(pr)
 		for _, a := range alias {
 			if after[a] {
 				ok = false
